@@ -17,6 +17,9 @@ Parts
   reuse   programs over SHARED pattern objects (use a prefix, extend it in several ways, use it again): every object
           must answer like the same expression built fresh and like the reference (exhaustive small sweep + Hypothesis).
   probe   a few fixed documented examples (tutorial P example, "fact 6", changelog statement about P[X].ANY).
+  unicode non-ASCII field ids x regex grammar (table over stack set U, identities, name_mapping skip/only/omit_default/map):
+          strings and compiled re.Pattern predicates in every position, decided by the same reference (`re.fullmatch` in the
+          harness / equality for identifier strings); the sampled parts (pure, e2e, reuse) draw from the same ids and grammar.
 """
 import itertools
 import typing
@@ -154,6 +157,8 @@ def stack_set(name):
             pure = [list(p) for p in itertools.product(RALPHA, repeat=3)]
         elif name == "R4":
             pure = [list(p) for p in itertools.product(RALPHA, repeat=4)]
+        elif name == "U":
+            pure = u_stacks()
         else:
             raise ValueError(name)
         _STACK_SETS[name] = (pure, [tup(s) for s in pure], [W0.real_stack(s) for s in pure])
@@ -265,9 +270,17 @@ S_TYPES = ["A", "B", "SubA", "Abs", "AbsSub", "Impl", "ImplSub", "Proto", "Proto
            ["Union", "NoneType", "A"], ["Union", "A", "B"], ["Union", "B", "A"], ["Dict", "str", "int"],
            ["List", ["List", "int"]]]
 S_LOC_TYPES = [*S_TYPES, "NoneType"]
-S_IDS = ["a", "b", "a_b", "ab", "aa", "A", "_a", "b_a_b", "a1"]
+S_IDS = ["a", "b", "a_b", "ab", "aa", "A", "_a", "b_a_b", "a1",
+         # legal python identifiers are not limited to ASCII (all NFKC-normalised, see vkit/c10_helpers.py: U_IDS)
+         "клиент_id", "Клиент_id", "сумма", "имя2", "größe", "straße", "CAFÉ", "αβγ", "σας", "ΣΑΣ", "名前", "数_1",
+         "\u0131", "x\u0302y", "a\u0661"]
 S_STRS = ["a", "b", "a_b", "ab", "a|b", ".*_b", "a.", "(a|b)", "[ab]+", "a?b", ".*", "", "a.*", "_?a", "a|a_b",
-          "A", "a1", r"a\d", ".", "..", "a{2}", "aa", "_a"]
+          "A", "a1", r"a\d", ".", "..", "a{2}", "aa", "_a",
+          "клиент_id", "сумма", "名前", "straße", r"\w+_id", r"[^\W\d]\w*", r"\w+", r"\w*\d", r"\D+", r"(?i)КЛИЕНТ_ID|a",
+          r"(?i)σας|straße", r".*\bсумма\b", r"\b\w+\b", r"[^\W\d_]+", r"\W+", r"\w+(?<!_id)", r"[а-яё]+_id", r"(?i)[а-я]+_ID",
+          r"[a-z_]+", r"(?i)[a-z]+", r"\w{2}", r"a\s?b", r"(?a)\w+", "a b", r".*[^\x00-\x7f].*"]
+S_RES = [[r"\w+_id", ""], ["КЛИЕНТ_ID", "I"], [r"\w+", "A"], [r"[a-zß]+", "I"], [r"\w+\d", "I"], ["a b", "X"], ["a|A1", "I"],
+         [r"\w*[^\W\d]", "IA"], ["σας", "I"], [r".\B.*", ""]]
 
 
 class Pool(list):
@@ -278,7 +291,8 @@ class Pool(list):
         self.cache = {}
 
 
-S_ATOMS = Pool([tup(Tn(t)) for t in S_TYPES] + [tup(Sn(s)) for s in S_STRS] + [("ANY",)])
+S_ATOMS = Pool([tup(Tn(t)) for t in S_TYPES] + [tup(Sn(s)) for s in S_STRS] + [("R", p, f) for p, f in S_RES]
+               + [("ANY",)])
 
 
 def atoms_true(loc_t, pool):
@@ -300,11 +314,23 @@ def st_loc(draw, types=tuple(map(tup, S_LOC_TYPES)), ids=tuple(S_IDS), kinds=("T
     return [k, ts, draw(st.sampled_from(ids))]
 
 
+def derived_atom(fid, code):
+    """String (5 of 6) or compiled-pattern predicate derived from a field id; pure function of (fid, code)."""
+    code, r = divmod(code, 6)
+    if r:
+        return ["S", H.derive_regex(fid, code)]
+    code, f = divmod(code, 4)
+    flags = ("", "I", "I", "IA")[f]
+    return ["R", H.derive_regex(fid.swapcase() if "I" in flags else fid, code, inline_flags=False), flags]
+
+
 @st.composite
 def st_elem_for(draw, loc, pool):  # noqa: C901
     """One chain element (always one location wide), aimed at ``loc`` with probability ~0.85."""
     good = atoms_true(tup(loc), pool) if draw(st.integers(0, 19)) < 17 else []  # noqa: PLR2004
     atom = lst(draw(st.sampled_from(good or pool)))
+    if loc[0] in ("IF", "OF", "FL") and draw(st.integers(0, 9)) < 3:  # noqa: PLR2004
+        atom = derived_atom(loc[2], draw(st.integers(0, 2 ** 62)))   # a regex grown from this field id by the grammar
     form = draw(st.integers(0, 11))
     if form <= 4:  # noqa: PLR2004
         if atom[0] == "S" and H.attr_ok(atom[1]) and draw(st.booleans()):
@@ -429,8 +455,11 @@ def st_pure_case(draw):
 
 
 # ----------------------------------------------------------------------------------- end-to-end strategies
-E2E_IDS = ["a", "b", "a_b", "ab", "aa", "c", "b_a"]
-E2E_STRS = [*E2E_IDS, "a|b", ".*_b", "a.", "(a|b)", "[ab]+", ".*", "a.*", "b_?a?", "c|aa"]
+E2E_IDS = ["a", "b", "a_b", "ab", "aa", "c", "b_a",
+           "клиент_id", "Сумма", "имя2", "größe", "straße", "σας", "名前", "数_1", "x\u0302y"]
+E2E_STRS = [*E2E_IDS, "a|b", ".*_b", "a.", "(a|b)", "[ab]+", ".*", "a.*", "b_?a?", "c|aa",
+            r"\w+_id", r"[^\W\d]\w*", r"\w+", r"\w+\d", r"(?i)сумма|B", r"\b\w{3,}\b", r"[^\W\d_]+", r"\D+", r"\W+|a"]
+E2E_CODES = (3, 2 ** 33 + 7777, 2 ** 47 + 123457, 987654321987)
 E2E_ORDER = ["B", "A", "SubA", "Impl", "ProtoImpl", "Root"]
 
 
@@ -486,7 +515,16 @@ def e2e_atom_pool(models):
     for name in ("A", "B", "SubA", "Abs", "Impl", "Proto", "ProtoImpl", "Root", "int", "str", "list", "List", "dict"):
         if name not in types:
             types.append(name)
-    return Pool([("T", t) for t in types] + [("S", s) for s in E2E_STRS] + [("ANY",)])
+    atoms = [("T", t) for t in types] + [("S", s) for s in E2E_STRS] + [("ANY",)]
+    n = 0
+    for role in E2E_ORDER:      # regexes grown from the ids of this world's own fields (pure function of the models)
+        for fid, _ in models[role]:
+            n += 1
+            for code in E2E_CODES[n % 2::2]:
+                a = tup(derived_atom(fid, code * 6 + (n + code) % 6))
+                if a not in atoms:
+                    atoms.append(a)
+    return Pool(atoms)
 
 
 @st.composite
@@ -574,9 +612,11 @@ def check_pure(ctx, case):
             continue
         depth = len(stack)
         rel = "depth<width" if depth < width else "depth=width" if depth == width else "depth>width"
+        last = stack[-1]
+        fid_label = ([] if last[0] in ("TH", "GP") else ["last_field_id:ascii" if last[2].isascii() else "last_field_id:nonascii"])
         ctx.case([expr, stack], nt_expr and depth >= 2,  # noqa: PLR2004
                  sample={"expr": show(expr), "stack": show_stack(stack), "reference": r},
-                 labels=["part:pure", f"ref:{r}", f"stack_depth:{min(depth, 6)}", rel, *labels])
+                 labels=["part:pure", f"ref:{r}", f"stack_depth:{min(depth, 6)}", rel, *fid_label, *labels])
         if r is None:
             ctx.count("unspecified_pairs")
             continue
@@ -766,6 +806,8 @@ def check_e2e(ctx, case):  # noqa: C901, PLR0912, PLR0915
         verdicts = [ref(t) for t in tstacks]
         key = [models, mode, via, chain, expr]
         labels = ["part:e2e", f"e2e:{mode}", f"e2e:chain_{chain}", f"e2e:via_{via}", *expr_labels(expr)]
+        if any(not fid.isascii() for fields in models.values() for fid, _ in fields):
+            labels.append("e2e:model_with_nonascii_field_id")
         if any(v is None for v in verdicts):
             ctx.count("unspecified_e2e_predicates")
             ctx.case(key, False, labels=[*labels, "e2e:unspecified"])
@@ -1181,6 +1223,238 @@ def st_reuse_case(draw):  # noqa: C901
     return {"kind": "reuse", "ops": ops, "stacks": stacks}
 
 
+# ===================================================================================== non-ASCII field ids x regex grammar
+# Rule 4: "If you pass a string, it will be interpreted as a regex and the provider will be applied to all fields with id
+# matched by the regex ... Any field_id must be a valid python identifier, so if you pass the field_id directly, it will
+# match an equal string."  Python identifiers are not limited to ASCII, and a regex is a `re` regex of a str pattern:
+# \w \d \s \b and case-insensitivity follow the unicode tables.  The oracle is the reference evaluator
+# (vkit/c10_helpers.py: ref_str / ref_re -> plain `re.fullmatch` in the harness; identifier strings: equality).
+U_IDS = H.U_IDS
+for _fid in [*E2E_IDS, *[x for x in S_IDS if not x.startswith("_")]]:
+    if not H.is_safe_id(_fid):
+        raise env.HarnessError(f"C10: {_fid!r} is not usable as a field id")
+
+U_HAND = [
+    r"\w+_id", r"[^\W\d]\w*_id", r"(?i)КЛИЕНТ_ID|user_id", r"\w+(?<!_id)", r".*\bсумма\b", r"\w+", r"\w*\d", r"\D+", r".*\d",
+    r"[а-яё]+_id", r"[а-яА-Я_]+\w*", r"(?i)[а-я]+", r"(?i)straße|GRÖSSE", r"(?i)grösse", r"\w{1,3}", r"[^\W\d_]+", r"\S+", r"\W+",
+    r".+\B.", r"\b\w+\b", r"\b.+", r".+\b", r"(?i:σας)", r"(?i)ΣΑΣ", r"(?i)ς+|a", r"[\u4e00-\u9fff]+", r"\w+_\d", "a b", "a #b", r"a\s?b",
+    r"(?x) a b", r".*[^\x00-\x7f].*", r"[\x00-\x7f]+", r"(?a)\w+", r"(?a:\w+)_id", r"(?i)(?a:[a-z]+)_?id", r"(?i)i", r"(?i)\u0130d|k",
+    r"(?i)[a-z]+", r"[a-z_]+\d?", r"\w\W\w", r"\w+?\d", r"(\w)\1?.*", r"id_\w+|\w+_id", r"^\w+$", r"(?!\d)\w+", r".*(?<=\d)", r"\d*\D+\d*",
+    r"[\w]+", r"[^\w]*", r"[\d_]*[^\d_]+[\d_]*", r"(?s).+", r"(?m)^\w+$", r"(?i)CAFÉ|naïve", r"\w+[éÉ]", r"[^\W\d]+\d", r"", r".", r"..?",
+]
+U_RES_HAND = [[r"\w+_id", ""], ["КЛИЕНТ_ID", "I"], ["клиент_id", ""], [r"\w+", "A"], [r"[a-zß]+", "I"], [r"\w+\d", "I"], ["a b", "X"],
+              [r"\w*[^\W\d]", "IA"], ["σας", "I"], ["straße", "I"], [r".\B.*", ""], [r"(?i)café", ""], [r"\D+", "S"], [r"^\w+$", "M"]]
+U_CODES = (1, 5, 2 ** 20 + 77, 2 ** 33 + 7777, 2 ** 41 + 424243, 2 ** 47 + 123457, 2 ** 53 + 99, 987654321987654321,
+           2 ** 58 + 31337, 2 ** 61 + 1)
+
+
+def u_atoms(tier, seed):
+    """String / compiled-pattern atoms of the side table: every id of the pool as a string, the hand-written regexes and,
+    per field id, regexes derived by the grammar (codes rotate with VERIF_SEED)."""
+    out, seen = [], set()
+
+    def add(a):
+        if tup(a) not in seen:
+            seen.add(tup(a))
+            out.append(a)
+    for fid in U_IDS:
+        add(Sn(fid))
+    for x in U_HAND:
+        add(Sn(x))
+    for p, f in U_RES_HAND:
+        add(["R", p, f])
+    codes = U_CODES if tier == "thorough" else U_CODES[:6]
+    for i, fid in enumerate(U_IDS):
+        for j, code in enumerate(codes):
+            c = code * 7919 + seed * 104729 * (j + 1) + i * 31
+            add(derived_atom(fid, c * 6 + (1 + (i + j) % 5)))       # a string
+            if j % 3 == 0:
+                add(derived_atom(fid, c * 6))                        # a compiled pattern
+    return out
+
+
+def u_forms(x):
+    """Every position a string / pattern predicate can take: bare, lifted, P['..'], P[Model]['..'], + and the combinators."""
+    yield x
+    yield ["lsc", x]
+    yield PW(x)
+    yield CH(I(Tn("A")), I(x))
+    yield NOT(PW(x))
+    yield NOT(NOT(PW(x)))
+    yield OR(PW(x), PW(Sn("a")))
+    yield AND(PW(x), PW(Tn("int")))
+    yield XOR(PW(x), CH(I(Tn("A")), I(ANY)))
+    yield ["add", PW(Tn("A")), PW(x)]
+    yield CH(["t", [x, Tn("B")], False])
+    yield CH(["t", [Sn("a"), x], True])
+    yield ["P", OR(PW(Tn("A")), PW(Tn("B"))), [I(x)]]
+    yield AND(["lsc", x], NOT(["lsc", Sn("id")]))
+    if x[0] == "S" and H.attr_ok(x[1]):
+        yield CH(["a", x[1]])
+        yield CH(I(Tn("A")), ["a", x[1]])
+
+
+def enum_uexprs(tier, seed):
+    for x in u_atoms(tier, seed):
+        yield from u_forms(x)
+
+
+def u_stacks():
+    out = []
+    for fid in U_IDS:
+        out += [[["IF", "int", fid]], [["OF", "int", fid]], [["TH", "A"], ["IF", "int", fid]], [["TH", "B"], ["OF", "int", fid]]]
+    for fid in U_IDS[::5]:
+        out += [[["FL", "int", fid]], [["TH", "B"], ["IF", "A", U_IDS[0]], ["IF", "str", fid]], [["IFF", "int", fid]]]
+    out += [[["TH", "A"]], [["TH", "int"]], [["TH", "A"], ["GP", "int", 0]]]
+    return out
+
+
+def enum_ulaws(tier, seed):
+    """Documented identities 1, 2, 4 over the non-ASCII universe (real checker vs real checker)."""
+    for n in U_IDS:
+        if H.attr_ok(n):
+            yield "id1_item_is_attr", CH(I(Sn(n))), CH(["a", n])
+            yield "id1_item_is_attr", CH(I(Tn("A")), I(Sn(n))), CH(I(Tn("A")), ["a", n])
+    atoms = u_atoms(tier, seed)
+    for i, x in enumerate(atoms):
+        yield "id2_P_item_is_pred", PW(x), x
+        if i % 4 == 0:
+            y = atoms[(i * 7 + 3) % len(atoms)]
+            yield "id4_tuple_is_or", CH(["t", [x, y], False]), OR(PW(x), PW(y))
+            yield "double_negation", NOT(NOT(PW(x))), PW(x)
+
+
+# ----------------------------------------------------------------------------------- the same atoms inside name_mapping
+NMU_GROUP = 5
+NMU_FORMS = 8
+NMU_USAGES = [("skip", "dump"), ("only", "dump"), ("omit_default", "dump"), ("map_func", "dump"), ("skip", "load"),
+              ("map_func", "load")]
+_NMU = {}
+
+
+def nmu_model(ids):
+    key = tuple(ids)
+    if key not in _NMU:
+        cls = _dc.make_dataclass(f"NMU{len(_NMU)}", [(fid, int, _dc.field(default=0)) for fid in ids])
+        _NMU[key] = (cls, H.World({"Root": cls}))
+    return _NMU[key]
+
+
+def nmu_expr(x, form):  # noqa: PLR0911
+    if form == 0:
+        return x
+    if form == 1:
+        return PW(x)
+    if form == 2:  # noqa: PLR2004
+        return CH(I(Tn("Root")), I(x))
+    if form == 3:  # noqa: PLR2004
+        return NOT(NOT(PW(x)))
+    if form == 4:  # noqa: PLR2004
+        return AND(PW(x), PW(Tn("int")))
+    if form == 5:  # noqa: PLR2004
+        return OR(PW(x), NEVER)
+    if form == 6:  # noqa: PLR2004
+        return ["add", PW(Tn("Root")), PW(x)]
+    return NOT(PW(x))
+
+
+def nmu_verdicts(expr, ids, direction):
+    ref = compile_ref(expr)
+    kind = "OF" if direction == "dump" else "IF"
+    return {fid: ref(tup([["TH", "Root"], [kind, "int", fid]])) for fid in ids}
+
+
+def enum_nmu(tier, seed):
+    """Models of NMU_GROUP fields over the id pool x every atom of the side table that (by the reference) selects a proper,
+    non-empty subset of the model's fields; usage / direction / predicate position rotate over the atoms."""
+    ids_all = list(U_IDS)
+    groups = [ids_all[i:i + NMU_GROUP] for i in range(0, len(ids_all), NMU_GROUP)]
+    groups += [ids_all[i::len(groups)][:NMU_GROUP] for i in range(3)]      # a second cut: ids of different scripts together
+    atoms = u_atoms(tier, seed)
+    n = seed
+    for ids in groups:
+        for x in atoms:
+            hit = [bool(H.ref_atom(tup(x), ("OF", "int", fid))) for fid in ids]
+            if not any(hit) or all(hit):
+                continue
+            n += 1
+            usage, direction = NMU_USAGES[n % len(NMU_USAGES)]
+            form = (n // len(NMU_USAGES)) % NMU_FORMS
+            if usage == "map_func" and form == NMU_FORMS - 1:
+                form = 1
+            yield {"kind": "nmu", "ids": ids, "expr": nmu_expr(x, form), "usage": usage, "dir": direction}
+
+
+def check_nmu(ctx, case):
+    from adaptix import name_mapping  # noqa: PLC0415
+    ids, expr, usage, direction = case["ids"], case["expr"], case["usage"], case["dir"]
+    H.validate(expr)
+    for fid in ids:
+        if not H.is_safe_id(fid):
+            raise ValueError(f"{fid!r} is not usable as a field id")
+    cls, world = nmu_model(ids)
+    verdicts = nmu_verdicts(expr, ids, direction)
+    labels = ["part:name_mapping_unicode", f"nm:{usage}", f"nmu:{direction}", *expr_labels(expr)]
+    if any(v is None for v in verdicts.values()):
+        ctx.count("unspecified_pairs")
+        ctx.case(["nmu", ids, expr, usage, direction], False, labels=[*labels, "nmu:unspecified"])
+        return
+    matched = {fid for fid, v in verdicts.items() if v}
+    pred = H.build(expr, world)
+    kw = {"skip": {"skip": pred}, "only": {"only": pred}, "omit_default": {"omit_default": pred},
+          "map_func": {"map": [(pred, lambda shape, fld: "K_" + fld.id)]}}[usage]
+    if direction == "load":
+        vals = {fid: 10 + i for i, fid in enumerate(ids)}
+    else:                                    # every second field holds its default
+        vals = {fid: (0 if i % 2 == 0 else 10 + i) for i, fid in enumerate(ids)}
+
+    def present(fid):
+        if usage == "skip":
+            return fid not in matched
+        if usage == "only":
+            return fid in matched
+        if usage == "omit_default":
+            return not (fid in matched and vals[fid] == 0)
+        return True
+
+    data = {("K_" + fid if usage == "map_func" and fid in matched else fid): vals[fid] for fid in ids if present(fid)}
+    obj = cls(**vals)
+    ctx.case(["nmu", ids, expr, usage, direction], 0 < len(matched) < len(ids),
+             sample={"ids": ids, "pred": show(expr), "usage": usage, "dir": direction, "selected": sorted(matched)},
+             labels=[*labels, "nmu:selects_some" if 0 < len(matched) < len(ids) else "nmu:selects_all_or_none",
+                     *(["nmu:nonascii_id_selected"] if any(not f.isascii() for f in matched) else [])])
+    try:
+        retort = Retort(recipe=[name_mapping(cls, **kw)])
+        if direction == "dump":
+            got, exp = retort.dump(obj), data
+        else:
+            got, exp = retort.load(data, cls), cls(**{fid: vals[fid] if present(fid) else 0 for fid in ids})
+    except Exception as e:  # noqa: BLE001  -- documented parameters, valid data
+        got, exp = describe(e), "<no exception>"
+    if got != exp:
+        # is it the checker itself (outside name_mapping) that disagrees with the reference on one of these fields?
+        kind = "OF" if direction == "dump" else "IF"
+        for fid in ids:
+            stack = [["TH", "Root"], [kind, "int", fid]]
+            try:
+                direct = bool(H.create_loc_stack_checker(H.build(expr, world)).check_loc_stack(MED, world.real_stack(stack)))
+            except Exception:  # noqa: BLE001
+                direct = None
+            if direct != verdicts[fid]:
+                le, ls = H.localize(expr, stack, world)
+                lr = compile_ref(le)(tup(ls))
+                if lr is None:
+                    le, ls, lr = expr, stack, verdicts[fid]
+                ctx.violation("checker_mismatch", (H.node_sig(le, ls), "expected_match" if lr else "expected_nomatch"),
+                              {"kind": "pure", "expr": le, "stacks": [ls]},
+                              f"{show(le)}  on  {show_stack(ls)}: reference={lr} adaptix={not lr}   (seen in name_mapping("
+                              f"{usage}={show(expr)}) on a model with the fields {ids}: {direction} gave {got!r}, expected {exp!r})")
+                return
+        ctx.violation("name_mapping_predicate", (usage, "unicode_ids", direction), case,
+                      f"name_mapping(Model, {usage}={show(expr)}) on a model with the int fields {ids}: the predicate selects "
+                      f"exactly {sorted(matched)}; {direction} gave {got!r}, expected {exp!r}")
+
+
 # ===================================================================================== dispatch / exploration
 # ===================================================================================== facade factories taking *preds
 # ``enum_by_name(*preds)``, ``flag_by_member_names(*preds)``, ``enum_by_value(first_pred, *preds, tp=...)`` are documented
@@ -1396,6 +1670,8 @@ def check_case(ctx: runner.Ctx, case):
         check_convgp(ctx, case)
     elif k == "nm":
         check_nm(ctx, case)
+    elif k == "nmu":
+        check_nmu(ctx, case)
     elif k == "facade":
         check_facade(ctx, case)
     elif k == "pure":
@@ -1447,6 +1723,35 @@ def explore(ctx: runner.Ctx):
             break
         for sname in sets:
             check_case(ctx, {"kind": "law", "law": name, "lhs": lhs, "rhs": rhs, "set": sname})
+    # 2u. non-ASCII field ids x regex grammar: side table through the same reference oracle, identities, name_mapping
+    n_u = 0
+    for i, expr in enumerate(enum_uexprs(ctx.tier, ctx.base_seed)):
+        n_u += 1
+        if i % ctx.nshards != ctx.shard:
+            continue
+        if ctx.out_of_time():
+            break
+        check_case(ctx, {"kind": "table", "expr": expr, "set": "U"})
+    n_ul = 0
+    for i, (name, lhs, rhs) in enumerate(enum_ulaws(ctx.tier, ctx.base_seed)):
+        n_ul += 1
+        if i % ctx.nshards == ctx.shard:
+            check_case(ctx, {"kind": "law", "law": name, "lhs": lhs, "rhs": rhs, "set": "U"})
+    n_nmu = 0
+    for i, ucase in enumerate(enum_nmu(ctx.tier, ctx.base_seed)):
+        n_nmu += 1
+        if i % ctx.nshards == ctx.shard and (ctx.tier == "thorough" or i // ctx.nshards % 2 == ctx.base_seed % 2):
+            runner.guarded(ctx, lambda c: check_case(ctx, c), ucase)
+    ctx.mark_exhaustive(
+        f"non-ASCII field ids: {n_u} expressions = {len(u_atoms(ctx.tier, ctx.base_seed))} string / re.Pattern atoms (the "
+        f"{len(U_IDS)} ids themselves, {len(U_HAND)} hand-written regexes, {len(U_RES_HAND)} compiled patterns with flags, and per id "
+        f"regexes derived by the grammar of vkit/c10_helpers.py: derive_regex, codes rotating with VERIF_SEED) x 14-16 positions "
+        f"(bare, lsc, P[..], P[A][..], P.attr, ~, ~~, |, &, ^, +, tuple, generator, extended combined pattern) x the "
+        f"{len(stack_set('U')[0])} stacks of set U (every id as InputFieldLoc / OutputFieldLoc, alone and under a model, some "
+        f"FieldLoc / depth 3, non-field locations); {n_ul} identity instances over the same set; {n_nmu} name_mapping cases "
+        f"(skip / only / omit_default / map x dump / load x 8 predicate positions rotating over the atoms that select a proper "
+        f"subset of a {NMU_GROUP}-field model)" + (" (quick: every second name_mapping case, rotating with the seed)"
+                                                   if ctx.tier == "quick" else ""))
     # 3aa. predicates inside name_mapping (skip / only / omit_default / map pairs)
     n_nm = 0
     for i, ncase in enumerate(enum_nm()):
@@ -1521,8 +1826,12 @@ if __name__ == "__main__":
             "the path ending at its position (the reading under which `+`/extension distribute over | & ^)",
             "not asserted (counted as unspecified): bare generic class (list/List/dict) vs a parametrised "
             "location type, abstract class vs parametrised generic, string predicates on InputFuncFieldLoc; not "
-            "generated: re.Pattern predicates, non-runtime / data protocols, Annotated/NewType/TypeVar hints, "
+            "generated: non-runtime / data protocols, Annotated/NewType/TypeVar hints, "
             "invalid regexes, `X + (combined multi-location pattern)`",
+            "field ids are legal python identifiers, ASCII or not, always NFKC-normalised (python normalises the identifiers "
+            "of a class body); a non-identifier string is a `re` regex of a str pattern (unicode character classes and case "
+            "folding, as `re.fullmatch(pattern, field_id)` in the harness decides); a compiled re.Pattern predicate (public "
+            "`Pred` type) matches by `pattern.fullmatch(field_id)` with the flags it was compiled with",
             "generic_arg(pos, pred) and P.ANY have no tutorial sentence; their meaning is taken from the name/"
             "signature, the repository's own unit test and the changelog",
             "e2e: the real location stacks are captured by a spy provider in a second retort over the same input "
